@@ -1,8 +1,9 @@
 (** One entry point for the extracted model runner: component number, numbers in, numbers out. *)
-From Remoc Require Import Lib.Base Run.RunCodec.
+From Remoc Require Import Lib.Base Run.RunCodec Run.RunIoChan.
 
 Definition run (comp : N) (inp : list N) : list N :=
   match comp with
   | 9 => run_codec inp
+  | 18 => run_io inp
   | _ => [97]
   end.
